@@ -1,0 +1,6 @@
+//go:build verif
+
+package syntax
+
+// VerifC09PosAddCol exposes posAddCol for the /verif C09 correspondence check.
+func VerifC09PosAddCol(p Pos, n int) Pos { return posAddCol(p, n) }
